@@ -195,6 +195,7 @@ def _simulate_built(unit, P, root, uidx, comp, drv, scratch, res):
         ops = {i: oracles.parse_op(l) for i, l in enumerate([l for l in lines if l.startswith("OP ")])}
         calls = run.session(0)
         for f in oracles.run_findings(run):
+            annotate_full(f, meta)
             _add(res, f, ctx, "canonical")
         cn = oracles.Canon(run, len(xs[xi]), caps.indirect, caps.has_end)
         for f in cn.findings:
@@ -289,6 +290,7 @@ def _simulate_built(unit, P, root, uidx, comp, drv, scratch, res):
         oplines = [l for l in lines if l.startswith("OP ")]
         ops = {i: oracles.parse_op(l) for i, l in enumerate(oplines)}
         for f in oracles.run_findings(run):
+            annotate_full(f, meta)
             _add(res, f, ctx, "scheduled")
         for sid, (xi, fill) in enumerate(pick):
             calls = run.session(sid)
@@ -340,6 +342,28 @@ def _merge_probes(stats, pr):
             stats[k] = stats.get(k, 0) + v
 
 
+def annotate_full(f, meta):
+    """For liveness findings: which strings were at capacity when the call stopped making progress."""
+    if f["oracle"] not in ("P7", "P5") or "snap=" not in f["detail"]:
+        return
+    snap = f["detail"].split("snap=", 1)[1].strip()
+    caps = {}
+    for o in meta["outputs"]:
+        if o["type"] == "STR":
+            caps[o["name"]] = o["str_size"] - 1 if o["str_null"] else o["str_size"]
+    full = []
+    for item in snap.split(";"):
+        if "=" in item and ":" in item:
+            n, v = item.split("=", 1)
+            try:
+                cnt = int(v.split(":", 1)[0])
+            except ValueError:
+                continue
+            if n in caps and cnt >= caps[n]:
+                full.append(n)
+    f["detail"] = f["detail"].split(" snap=")[0] + " full=%s snap=%s" % (",".join(full) or "-", snap)
+
+
 def _add(res, f, ctx, phase):
     g = dict(f)
     g["phase"] = phase
@@ -357,3 +381,62 @@ def _add_crash(res, crash, ctx, phase):
         f = oracles.V("M5U", "sanitizer-report-unattributed", -1, 0, summary)
     f["stderr_tail"] = tail[-1500:]
     _add(res, f, ctx, phase)
+
+
+# ------------------------------------------------------------------ single-script evaluation (replay / minimisation)
+
+def evaluate_script(unit, comp, drv, scratch, ins, lines, fill=0, want=("L2", "LAWS")):
+    """
+    Run the canonical pass for every session input and then the given script; apply all
+    oracles.  Returns (findings, crashed).  Consults no PRNG.
+    """
+    meta = comp["meta"]
+    flags = meta["flags"]
+    caps = sched.Caps(flags)
+    res = {"findings": []}
+    runs = []
+    sids = sorted(ins)
+    for k, sid in enumerate(sids):
+        runs.append((k, sched.run_text(k, {0: ins[sid]}, sched.canonical_ops(len(ins[sid]), caps, fill))))
+    body = [l for l in lines if l.startswith("OP ")]
+    runs.append((1000, sched.run_text(1000, ins, body)))
+    out = exec_runs(drv, runs, scratch)
+    canons = {}
+    for k, sid in enumerate(sids):
+        run, crash = out.get(k, (None, ("harness", "missing", "")))
+        ctx = _ctx(unit, comp, {0: ins[sid]}, runs[k][1])
+        if crash is not None:
+            _add_crash(res, crash, ctx, "canonical")
+            continue
+        ops = {i: oracles.parse_op(l) for i, l in enumerate([l for l in runs[k][1] if l.startswith("OP ")])}
+        for f in oracles.run_findings(run):
+            annotate_full(f, meta)
+            _add(res, f, ctx, "canonical")
+        cn = oracles.Canon(run, len(ins[sid]), caps.indirect, caps.has_end)
+        for f in cn.findings:
+            _add(res, f, ctx, "canonical")
+        lf, _ = oracles.law_check(run.session(0), ops, flags, True)
+        for f in lf + oracles.end_law_check(run.session(0)):
+            _add(res, f, ctx, "canonical")
+        if cn.ok:
+            canons[sid] = cn
+    run, crash = out.get(1000, (None, ("harness", "missing", "")))
+    ctx = _ctx(unit, comp, ins, lines)
+    if crash is not None:
+        _add_crash(res, crash, ctx, "scheduled")
+        return res["findings"], True
+    oplines = [l for l in body if l.startswith("OP ")]
+    ops = {i: oracles.parse_op(l) for i, l in enumerate(oplines)}
+    for f in oracles.run_findings(run):
+        annotate_full(f, meta)
+        _add(res, f, ctx, "scheduled")
+    for sid in sids:
+        calls = run.session(sid)
+        if sid in canons and "L2" in want:
+            ff, _ = oracles.fold_check(canons[sid], calls, ops, flags)
+            for f in ff:
+                _add(res, f, ctx, "scheduled")
+        lf, _ = oracles.law_check(calls, ops, flags)
+        for f in lf + oracles.end_law_check(calls):
+            _add(res, f, ctx, "scheduled")
+    return res["findings"], False
